@@ -60,11 +60,16 @@ def main():
             return l
 
         Subroutine.called_subroutines = property(shuffled)
-    try:
-        d = full(spec["src"])
-    except Exception as e:
-        d = {"error": "%s: %s" % (type(e).__name__, e)}
-    sys.stdout.write("DUMP " + json.dumps(d) + "\n")
+    out = []
+    for src in spec.get("srcs", [spec.get("src")]):
+        try:
+            d = full(src)
+        except Exception as e:
+            d = {"error": "%s: %s" % (type(e).__name__, e)}
+        out.append(d)
+        if spec.get("fresh_each"):
+            pass
+    sys.stdout.write("DUMP " + json.dumps(out if "srcs" in spec else out[0]) + "\n")
 
 
 if __name__ == "__main__":
